@@ -5,7 +5,7 @@
    per-field conversion `conv` (for a nested dataclass field: the nested class's loader).
 
    Two regions are excluded and refuted below (open findings):
-   * F22 (default engine): a document key equal to the internal CATCH_ALL sentinel in a
+   * F41 (default engine): a document key equal to the internal CATCH_ALL sentinel in a
      class with a CatchAll field (`sentinel_freeb`);
    * F19 (v1): two fields sharing a top-level key (AliasPath 'a.b' / 'a.c'), which makes
      the counter `i` over-count (`v1_disjointb`). *)
@@ -29,7 +29,7 @@ Variable conv : pstr -> raw -> cres V.
 (* The history quantifier: for EVERY class configuration (policy ignore / raise / CatchAll
    with or without default, tag key or not), EVERY sequence of documents loaded one after
    the other through the shared json_to_field cache (arbitrary keys, known or unknown, any
-   order; only the F22 region excluded), each outcome is the cache-free specification of
+   order; only the F41 region excluded), each outcome is the cache-free specification of
    its own document: earlier loads never change later outcomes. *)
 Theorem C10_spec_partial :
   forall (c : v0cls) (docs : list (doc raw)),
@@ -179,7 +179,7 @@ Proof.
 Qed.
 Print Assumptions C10_v1_refuted_shared_key.
 
-(* F22: CatchAll field with a default; the document key '<-|CatchAll|->' is unknown, so the
+(* F41: CatchAll field with a default; the document key '<-|CatchAll|->' is unknown, so the
    specification captures it, but the loader resolves it through the internal entry of
    json_to_field to the name 'extras?' and fails with a bare KeyError *)
 Definition F22_cls : v0cls :=
@@ -235,3 +235,17 @@ Example C10_example_v1 :
   v1_load yconv XV [(S "my_val", S "1"); (S "myVal", S "2"); (S "__tag__", S "V")]
     = OKCall [(S "my_val", KV (S "1")); (S "extras", KCatch [(S "myVal", S "2")])].
 Proof. repeat split; vm_compute; reflexivity. Qed.
+
+(* load then dump on the example: camelCase dump keys resolve to their fields (hypothesis of
+   C10_catchall_rt), and the two captured pairs reappear at top level, the tag last *)
+Definition xdump_key (f : pstr) : pstr := if pstr_eqb f (S "my_val") then S "myVal" else f.
+Example C10_example_rt_hyp :
+  forallb (fun f => match classify XA (xdump_key f) with KUnknown => false | _ => true end) (c_fields XA) = true.
+Proof. vm_compute. reflexivity. Qed.
+Example C10_example_rt :
+  to_dict (dump_pairs xdump_key (Some (S "extras")) (Some (S "__tag__", S "A"))
+             [(S "my_val", KV (S "1")); (S "other", KV (S "2"));
+              (S "extras", KCatch [(S "zzz", S "3"); (S "my_vall", S "4")])] (c_fields XA))
+  = [(S "myVal", DField (S "1")); (S "other", DField (S "2")); (S "zzz", DRaw (S "3"));
+     (S "my_vall", DRaw (S "4")); (S "__tag__", DTag (S "A"))].
+Proof. vm_compute. reflexivity. Qed.
